@@ -107,6 +107,8 @@ class VProcess:
                 V.W.events.append(("body_end", name, jobid, self.vpid, fields.get("code", 0)))
                 self.body_running = False
             elif op == "touch-done":
+                # (logged first: the scheduling point of touch() comes after the file exists)
+                V.W.events.append(("marker_done", name, jobid, self.vpid))
                 done.touch()
             elif op == "write-failed":
                 failed.write_text(str(fields.get("code", 0)))
